@@ -4,7 +4,11 @@
 
 package trend
 
-import "github.com/cinar/indicator/v2/helper"
+import (
+	"math"
+
+	"github.com/cinar/indicator/v2/helper"
+)
 
 // MovingSum represents the configuration parameters for calculating the Moving Sum over the specified period.
 //
@@ -37,8 +41,32 @@ func (m *MovingSum[T]) Compute(c <-chan T) <-chan T {
 
 	sum := T(0)
 
+	// notNumbers is the count of the NaN and infinite values that are
+	// currently inside the window. They are kept out of the running sum,
+	// as a single one of them would otherwise stay in it forever.
+	notNumbers := 0
+
+	isNumber := func(n T) bool {
+		return !math.IsNaN(float64(n)) && !math.IsInf(float64(n), 0)
+	}
+
 	sums := helper.Operate(cs[0], cs[1], func(c, b T) T {
-		sum = sum + c - b
+		if isNumber(c) {
+			sum += c
+		} else {
+			notNumbers++
+		}
+
+		if isNumber(b) {
+			sum -= b
+		} else {
+			notNumbers--
+		}
+
+		if notNumbers > 0 {
+			return T(math.NaN())
+		}
+
 		return sum
 	})
 
